@@ -290,8 +290,13 @@ class AsyncioSelectorReactor(PosixReactorBase):
         return dc
 
     def callFromThread(self, f, *args, **kwargs):
-        g = lambda: self.callLater(0, f, *args, **kwargs)
-        self._asyncioEventloop.call_soon_threadsafe(g)
+        # Queue the call like every other reactor does (ReactorBase drains
+        # threadCallQueue in FIFO order at the start of runUntilCurrent) and
+        # wake the event loop up.  Scheduling each call with callLater(0) made
+        # the order of calls from one thread depend on a strictly increasing
+        # clock: timed calls with equal times are not run in FIFO order.
+        self.threadCallQueue.append((f, args, kwargs))
+        self._asyncioEventloop.call_soon_threadsafe(self._onTimer)
 
 
 def install(eventloop=None):
